@@ -1,6 +1,7 @@
 /- Driver domain `dyn`: dynamic registration over an abstract package tree. -/
 import Gin.Drv.Util
 import Gin.DynReg
+import Gin.ImportMgr
 open Lean
 
 namespace Gin.Drv.DynDom
@@ -26,6 +27,17 @@ def errName : DErr → String
   | .syntaxError => "SyntaxError" | .valueError => "ValueError" | .nameError => "NameError"
   | .attributeError => "AttributeError" | .importError => "ImportError"
 
+def importToJson (i : Import) : Json :=
+  Json.arr #[strs i.module, .bool i.isFrom, match i.alias with | some a => .str a | none => .null]
+
+/-- the import manager built from the recorded imports, in the order the constructor adds them -/
+def imJson (case : Json) : Json :=
+  let l := (jarr (jfield case "imlist")).map importOfJson
+  match ({} : IM).addAll l with
+  | none => .null
+  | some im => Json.mkObj [("imports", .arr (im.imports.map importToJson).toArray),
+      ("selectors", .arr (im.selectors.map (fun (m, s) => Json.arr #[strs m, strs s])).toArray)]
+
 def run (case : Json) : Json :=
   let w := worldOfJson (jfield case "world")
   let units := (jarr (jfield case "units")).map (fun u => (jarr u).map stmtOfJson)
@@ -33,6 +45,7 @@ def run (case : Json) : Json :=
   let rows := b.map (fun (o, kv) => Json.arr #[Json.num (o : Nat),
     Json.arr ((kv.map (fun (a, v) => Json.arr #[.str a, Json.num v])).toArray)])
   Json.mkObj [("bindings", .arr rows.toArray),
-              ("err", match e with | none => .null | some e => .str (errName e))]
+              ("err", match e with | none => .null | some e => .str (errName e)),
+              ("im", imJson case)]
 
 end Gin.Drv.DynDom
